@@ -142,6 +142,9 @@ def angle_lists(ctx, k):
     fams.append([(1.0 if (j >> (k - 1)) & 1 else -1.0) * 0.7 for j in range(n)] if k else [0.3])
     fams.append([2 * math.atan2(4, 3) * r.choice([1, -1, 0, 2]) for _ in range(n)])  # Pythagorean
     fams += threshold_lists(ctx, k)
+    # all-integer angle lists (Python ints): the (a+b)/2, (a-b)/2 transform must not inherit an integer dtype
+    fams.append([r.randint(-7, 7) for _ in range(n)])
+    fams.append([1 + 2 * j for j in range(n)])                                # odd integers: every half-sum is x.5 at some level
     if not ctx.quick:
         for _ in range(4):
             fams.append([r.gauss(0, 3) for _ in range(n)])
